@@ -37,6 +37,22 @@ fn main() {
                 writeln!(w, "{}", out).unwrap();
             }
         }
+        "export" => {
+            // export <requests.ndjson> <out.ndjson>: {"name", "dir"} -> export_all_to(dir)
+            let by_name: std::collections::HashMap<&str, &prelude::Entry> = entries.iter().map(|e| (e.name, e)).collect();
+            let rd = std::io::BufReader::new(std::fs::File::open(&args[2]).unwrap());
+            let mut w = std::io::BufWriter::new(std::fs::File::create(&args[3]).unwrap());
+            for line in rd.lines() {
+                let line = line.unwrap();
+                let v: serde_json::Value = serde_json::from_str(&line).unwrap();
+                let e = by_name[v["name"].as_str().unwrap()];
+                if let Some(cwd) = v["cwd"].as_str() {
+                    std::env::set_current_dir(cwd).unwrap();
+                }
+                let r = (e.export_all_to)(v["dir"].as_str().unwrap());
+                writeln!(w, "{}", serde_json::json!({"name": v["name"], "result": match r { Ok(()) => "Ok".to_string(), Err(m) => m }})).unwrap();
+            }
+        }
         _ => panic!("usage"),
     }
 }
